@@ -23,6 +23,8 @@ pub struct Tok {
     pub file: String,
     pub line: u32,
     pub col: u32,
+    /// the spelling of a numeric literal (0x10, 007); empty for other tokens
+    pub text: String,
 }
 
 impl Tok {
@@ -195,25 +197,42 @@ fn lex_line(text: &str, file: &str, line: u32, col0: u32) -> Result<Vec<Tok>, St
                 file: file.to_string(),
                 line,
                 col,
+                text: String::new(),
             });
         } else if c.is_ascii_digit() {
             let s = i;
-            while i < b.len() && b[i].is_ascii_digit() {
-                i += 1;
+            // decimal, 0x hexadecimal and 0 octal literals without suffix
+            let hex = c == '0' && matches!(b.get(i + 1), Some('x'));
+            if hex {
+                i += 2;
+                while i < b.len() && b[i].is_ascii_hexdigit() {
+                    i += 1;
+                }
+            } else {
+                while i < b.len() && b[i].is_ascii_digit() {
+                    i += 1;
+                }
             }
             if i < b.len() && (is_ident_start(b[i]) || b[i] == '.') {
                 return Err("numeric literal with suffix".into());
             }
             let txt: String = b[s..i].iter().collect();
-            if txt.len() > 1 && txt.starts_with('0') {
-                return Err("octal literal".into());
-            }
-            let n: u64 = txt.parse().map_err(|_| "int too large".to_string())?;
+            let n: u64 = if hex {
+                if txt.len() <= 2 {
+                    return Err("empty hex literal".into());
+                }
+                u64::from_str_radix(&txt[2..], 16).map_err(|_| "int too large".to_string())?
+            } else if txt.len() > 1 && txt.starts_with('0') {
+                u64::from_str_radix(&txt, 8).map_err(|_| "bad octal literal".to_string())?
+            } else {
+                txt.parse().map_err(|_| "int too large".to_string())?
+            };
             out.push(Tok {
                 atom: Atom::Int(n),
                 file: file.to_string(),
                 line,
                 col,
+                text: txt,
             });
         } else if matches!(c, ';' | '(' | ')' | ',' | '=' | '+' | '!' | '{' | '}') {
             out.push(Tok {
@@ -221,6 +240,7 @@ fn lex_line(text: &str, file: &str, line: u32, col0: u32) -> Result<Vec<Tok>, St
                 file: file.to_string(),
                 line,
                 col,
+                text: String::new(),
             });
             i += 1;
         } else {
@@ -311,22 +331,59 @@ impl State<'_> {
             .any(|m| m.name == name && !matches!(m.body, Body::Object(_)))
     }
 
-    /// C rescans a replacement together with the rest of the source, so a replacement that ends
-    /// in the name of a function-like macro picks up a following "(": that rule (and RSSL's
-    /// approximation of it) is outside the modelled subset
-    fn trailing_function_name(&self, out: &[Tok], next: Option<&Tok>) -> Result<(), Stop> {
-        if let Some(Tok {
+    /// C rescans a replacement together with the rest of the source: a replacement that ends in
+    /// the name of a function-like macro picks up a following "(" from the source. The name is not
+    /// picked up when it is the macro that was just replaced or one that is being replaced around
+    /// this point (C paints those; RSSL skips disabled macros and the last applied function).
+    /// Returns true when the rest of `toks` was consumed by the rescan.
+    fn rescan_trailing_name(
+        &self,
+        just_expanded: &str,
+        before_len: usize,
+        toks: &[Tok],
+        i: &mut usize,
+        disabled: &mut Vec<String>,
+        forbidden: &[String],
+        out: &mut Vec<Tok>,
+    ) -> Result<bool, Stop> {
+        let Some(Tok {
             atom: Atom::Id(last),
             ..
         }) = out.last()
-            && next.map(|t| &t.atom) == Some(&Atom::Punct('('))
-            && self.is_function_like(last)
-        {
+        else {
+            return Ok(false);
+        };
+        if toks.get(*i).map(|t| &t.atom) != Some(&Atom::Punct('(')) || !self.is_function_like(last) {
+            return Ok(false);
+        }
+        if last == just_expanded || disabled.contains(last) {
+            return Ok(false);
+        }
+        if out.len() <= before_len {
+            // the replacement was empty and the name stood in front of it: C does not go back to
+            // it, RSSL does - outside the common subset
             return Err(Stop::Unmodelled(
-                "replacement ends in a function-like macro name followed by (".into(),
+                "function-like macro name, then a macro that expands to nothing, then (".into(),
             ));
         }
-        Ok(())
+        if forbidden.contains(last) {
+            return Err(Stop::Unmodelled(
+                "an argument names a macro that is being expanded around it".into(),
+            ));
+        }
+        // the name and the rest of the source are scanned as one sequence
+        let name_tok = out.pop().unwrap();
+        let mut rest: Vec<Tok> = Vec::with_capacity(toks.len() - *i + 1);
+        rest.push(name_tok);
+        rest.extend_from_slice(&toks[*i..]);
+        // whether the macro whose replacement ended in the name is still "being replaced" while the
+        // picked-up invocation is rescanned is left open by the C standard (DR 268): meeting it
+        // again is outside the common subset
+        let mut inner_forbidden: Vec<String> = forbidden.to_vec();
+        inner_forbidden.push(just_expanded.to_string());
+        self.expand_guarded(&rest, disabled, &inner_forbidden, out)?;
+        *i = toks.len();
+        Ok(true)
     }
 
     fn expand(&self, toks: &[Tok], disabled: &mut Vec<String>, out: &mut Vec<Tok>) -> Result<(), Stop> {
@@ -357,12 +414,15 @@ impl State<'_> {
                 }
                 match &m.body {
                     Body::Object(body) => {
+                        let before_len = out.len();
                         disabled.push(name.clone());
                         let r = self.expand_guarded(body, disabled, forbidden, out);
                         disabled.pop();
                         r?;
                         i += 1;
-                        self.trailing_function_name(out, toks.get(i))?;
+                        if self.rescan_trailing_name(name, before_len, toks, &mut i, disabled, forbidden, out)? {
+                            return Ok(());
+                        }
                         continue;
                     }
                     Body::Function { params, body } => {
@@ -429,12 +489,15 @@ impl State<'_> {
                                 replaced.push(bt.clone());
                             }
                         }
+                        let before_len = out.len();
                         disabled.push(name.clone());
                         let r = self.expand_guarded(&replaced, disabled, forbidden, out);
                         disabled.pop();
                         r?;
                         i = j + 1;
-                        self.trailing_function_name(out, toks.get(i))?;
+                        if self.rescan_trailing_name(name, before_len, toks, &mut i, disabled, forbidden, out)? {
+                            return Ok(());
+                        }
                         continue;
                     }
                     Body::Paste => {
@@ -458,9 +521,10 @@ impl State<'_> {
                                 return Err(Stop::Unmodelled("## operand is a macro name".into()));
                             }
                         }
+                        // pasting concatenates the spellings: reg ## 0x10 is the identifier reg0x10
                         let pasted = match (l, r) {
                             (Atom::Id(a), Atom::Id(b)) => format!("{a}{b}"),
-                            (Atom::Id(a), Atom::Int(b)) => format!("{a}{b}"),
+                            (Atom::Id(a), Atom::Int(_)) => format!("{a}{}", toks[i + 4].text),
                             _ => return Err(Stop::Unmodelled("## operands outside the subset".into())),
                         };
                         if self.defined(&pasted) {
@@ -471,6 +535,7 @@ impl State<'_> {
                             file: "<scratch space>".into(),
                             line: 1,
                             col: 1,
+                            text: String::new(),
                         });
                         i += 6;
                         continue;
